@@ -20,14 +20,17 @@
 import os
 
 from harness import tlc
+from asyncssh.packet import String
 from harness.framework import run_check, MachineryError, VERIF
 
 SPEC = os.path.join(VERIF, 'specs', 'Transport')
-INVS = ['NoEffectOutOfPhase', 'StrictNoFiller', 'RoleRespected']
+INVS = ['NoEffectOutOfPhase', 'StrictNoFiller', 'RoleRespected',
+        'GuessSwallowsKexOnly']
 
 
 def write_cfg(name, consts, invariants=()):
-    d = dict(AuthGate='TRUE', RoleCheck='TRUE', StaleAuthHandler='FALSE')
+    d = dict(AuthGate='TRUE', RoleCheck='TRUE', StaleAuthHandler='FALSE',
+             GuessSwallowsAny='FALSE')
     d.update(consts)
     lines = ['CONSTANTS'] + [f'  {k} = {v}' for k, v in d.items()]
     lines += ['SPECIFICATION Spec', 'CHECK_DEADLOCK FALSE']
@@ -68,8 +71,12 @@ def main(ctx):
        expect='RoleRespected')
     mc(ctx, 'c06_sens3', dict(StaleAuthHandler='TRUE'), ['NoEffectOutOfPhase'],
        expect='NoEffectOutOfPhase')
+    mc(ctx, 'c06_sens4', dict(GuessSwallowsAny='TRUE'), ['StrictNoFiller'],
+       expect='StrictNoFiller')
+    mc(ctx, 'c06_sens5', dict(GuessSwallowsAny='TRUE'),
+       ['GuessSwallowsKexOnly'], expect='GuessSwallowsKexOnly')
     tab = table(ctx)
-    ctx.require(len(tab) == 2 * 10 * 24 * 2, f'table has {len(tab)} rows')
+    ctx.require(len(tab) == 2 * 11 * 24 * 2, f'table has {len(tab)} rows')
 
     # ---- 2a. real server, malicious raw client ----
     twin = G.run_server_case()
@@ -215,7 +222,10 @@ def main(ctx):
                 ntwin['log'] == twin['log'],
                 f'non-strict server twin run unexpected: {ntwin}')
     for strict in (True, False):
-        for point in ('after_kexinit', 'before_newkeys'):
+        # 'guessed': the raw client's KEXINIT announces a guessed first packet
+        # for a method that is not negotiated (first_kex_packet_follows, wrong
+        # guess): the message stands where the guessed packet would (P1g)
+        for point in ('after_kexinit', 'before_newkeys', 'guessed'):
             for (cls, vname), (t, body) in sorted(types.items()):
                 # after_kexinit: the exchange is running (P1); before_newkeys:
                 # the server has already sent its own NEWKEYS and waits for
@@ -226,12 +236,21 @@ def main(ctx):
                          point == 'after_kexinit') or \
                         (quick and vname != 'wellformed'):
                     continue
+                guessed = point == 'guessed'
                 # a repeated key exchange message is the peer's own genuine
                 # one sent again (valid for whatever method was negotiated)
-                inj = (t, None) if (cls == 'KEXMSG' and
+                inj = (t, None) if (cls == 'KEXMSG' and not guessed and
                                     vname == 'wellformed') else (t, body)
-                r = G.run_server_case(None, no_strict=not strict,
-                                      cleartext={point: [inj]})
+                injs = [inj]
+                if guessed and cls not in ('KEXMSG', 'KEXOTHER') and \
+                        tab.get(('server', 'P1g', cls, strict)) in ('ignore',
+                                                                   'unimpl'):
+                    # a tolerated message is not the guessed packet: that one
+                    # (of some other method: dropped unread) still follows
+                    injs.append((30, String(b'guessed')))
+                r = G.run_server_case(
+                    None, no_strict=not strict, wrong_guess=guessed,
+                    cleartext={'after_kexinit' if guessed else point: injs})
                 n += 1
                 ctx.count(('srv-clear', strict, point, cls, vname),
                           nontrivial=True)
@@ -239,14 +258,21 @@ def main(ctx):
                         [x for x in r['seen'] if x != 3] == twin['seen'] and
                         r['log'] == twin['log'])
                 dead = not r['closed'] and not r['seen'] and not r['log']
-                mph = 'P1' if point == 'after_kexinit' else 'P1w'
+                mph = {'after_kexinit': 'P1', 'guessed': 'P1g'}.get(point, 'P1w')
                 pred = tab.get(('server', mph, cls, strict))
                 sig = {'module': 'Gate', 'role': 'server', 'phase': mph,
                        'point': point, 'strict': strict, 'class': cls,
                        'variant': vname}
                 rep = {'kind': 'server-clear', 'strict': strict,
                        'point': point, 'type': t, 'body': body.hex()}
-                if pred == 'process':
+                if guessed and cls in ('KEXMSG', 'KEXOTHER'):
+                    # the guessed packet itself: dropped, the exchange goes on
+                    if r['closed'] or not same:
+                        ctx.divergence(f'server P1g {cls}/{vname} strict='
+                                       f'{strict}: the guessed packet was not '
+                                       f'dropped silently: closed={r["closed"]} '
+                                       f'seen={r["seen"]}')
+                elif pred == 'process':
                     # the message starts something the code supports at this
                     # point (a KEXINIT once the own NEWKEYS is out): only the
                     # take-effect rule below applies
